@@ -332,7 +332,7 @@ pub fn perturb_layout(t: &mut Tape, prog: &mut Prog) -> String {
 pub fn gen_l2_case(t: &mut Tape, rich: bool) -> Case {
     let w = if t.chance(1, 2) { 8 } else { 4 };
     let mut cfg = if rich { GenCfg::rich(w) } else { GenCfg::layout_only(w) };
-    cfg.max_items = 3 + t.below(14);
+    cfg.max_items = 3 + t.below(14 * crate::driver::scale());
     cfg.max_fields = 2 + t.below(10);
     if t.chance(1, 6) {
         cfg.max_gap = 1 << 12;
